@@ -50,8 +50,8 @@ def compare_runs(spec: dict, runs: list[dict]):
 class C05(Property):
     pid = "C05"
     title = "Workflow results do not depend on the interleaving"
-    lean_targets = ["SFV.Model.Exec", "SFV.Model.LoopComb", "SFV.Model.LoopNet", "SFV.Gen.StepGuards", "SFV.Props.C05", "SFV.Props.C05Steps", "SFV.Props.C05Op"]
-    props_files = ["SFV/Props/C05.lean", "SFV/Props/C05Steps.lean", "SFV/Props/C05Op.lean"]
+    lean_targets = ["SFV.Model.Exec", "SFV.Model.LoopComb", "SFV.Model.LoopNet", "SFV.Gen.StepGuards", "SFV.Props.C05", "SFV.Props.C05Steps", "SFV.Props.C05Op", "SFV.Props.C05Gather"]
+    props_files = ["SFV/Props/C05.lean", "SFV/Props/C05Steps.lean", "SFV/Props/C05Op.lean", "SFV/Props/C05Gather.lean"]
     drivers = ["Drivers/Net.lean"]
     translators = []
     rule = ("random well-formed DAG workflows (sfv.rt.wfgen; transformers with 1..3 inputs / 1..2 outputs, scatter, gather with known and "
